@@ -311,9 +311,19 @@ def main():
         return "(mku %s %s %s %s)" % (cs(h), clist([x for x in p.split("/") if x], cs),
                                       "None" if ce is None else "(Some %s)" % cs(ce), clist(sorted(o), cs))
     key_cases = []
-    for _ in range(500 if T == "quick" else 6000):
+
+    def fixed_url(h, p, ce):
+        return (h, p, ce, [], h + p + ("?dap4.ce=" + ce if ce is not None else ""))
+    # every pair of hosts on two paths under the base (and on one path), with a shared and a private constraint: catches that do
+    # not depend on the seed (ports, schemes, hosts)
+    fixed_pairs = [(fixed_url(h1, pa, ce), fixed_url(h2, pb, ce)) for h1 in hosts for h2 in hosts
+                   for pa, pb in (("/data/coll/a.nc.dap", "/data/coll/sub/b.nc.dap"), ("/data/coll/a.nc.dap", "/data/coll/a.nc.dap"))
+                   for ce in ("/time", "/temp")]
+    for it_ in range(len(fixed_pairs) + (500 if T == "quick" else 6000)):
         u1, u2 = mk_url(), mk_url()
-        if rng.random() < 0.2:
+        if it_ < len(fixed_pairs):
+            u1, u2 = fixed_pairs[it_]
+        elif rng.random() < 0.2:
             u2 = u1[:4] + (u1[4],)
         elif rng.random() < 0.6:
             # neighbours: same request except for one component (host/port, path, constraint, other parameters)
